@@ -81,7 +81,7 @@ MPT_STRUCT(buffer) *_mpt_buffer_alloc(size_t len, int flags)
 void harness(void)
 {
 	IN(size_t, in_n); IN(size_t, in_cap); IN(uintptr_t, in_id); IN(size_t, in_g);
-	uintptr_t in_ids[NENT]; int in_set[NENT];
+	uintptr_t in_ids[NENT]; int in_set[NENT]; V_FILL(in_ids); V_FILL(in_set);
 	MPT_STRUCT(dispatch) disp = MPT_DISPATCH_INIT; cmd_t *tab; size_t i, first = NENT, nlive = 0, empty = NENT;
 	IN(int, in_has_table); IN(int, in_alloc_fails);
 
